@@ -64,11 +64,16 @@ func c08Script(steps int) {
 	// an application message buffered while the poll cycle is busy
 	m1 := w.send(1, false) // goes out on polling at once (poll pending)
 	m2 := w.send(2, false) // buffered: polling is busy until the next poll
+	t0 := verif.Now()
 	w.sock.MaybeUpgrade(cand)
 	verif.Assert(w.sock.Upgrading() && !w.sock.Upgraded() && w.sock.Transport() == transports.Transport(main0), "a candidate is entertained; the transport does not change yet")
 	probed, done, failed := false, false, false
 	for step := 0; step < steps && !done && !failed; step++ {
-		switch verif.Choose(9) {
+		switch verif.Choose(10) {
+		case 9: // time passes (a third of the upgrade timeout)
+			if verif.Now()-t0 < int64(w.ps.Opts().UpgradeTimeout())/2 {
+				verif.SleepUntil(verif.Now() + int64(w.ps.Opts().UpgradeTimeout())/3)
+			}
 		case 0: // probe ping
 			before := len(cand.flat())
 			cand.OnPacket(probePing())
@@ -108,8 +113,8 @@ func c08Script(steps int) {
 		case 7:
 			cand.OnError("reset", nil)
 			failed = true
-		case 8:
-			verif.SleepUntil(verif.Now() + int64(w.ps.Opts().UpgradeTimeout()))
+		case 8: // the upgrade timeout, counted from the start of the attempt, expires
+			verif.SleepUntil(t0 + int64(w.ps.Opts().UpgradeTimeout()))
 			failed = true
 		}
 		verif.Assert(len(w.msgs) == 0, "nothing arriving on a candidate is delivered as a message before the upgrade completes")
